@@ -10,6 +10,7 @@ import (
 	"reflect"
 	"sort"
 	"strings"
+	"sync"
 )
 
 type MRes struct {
@@ -20,14 +21,20 @@ type MRes struct {
 }
 
 var methodCache = map[reflect.Type][]int{}
+var methodCacheMu sync.RWMutex // the race pass calls the reflection helpers from several goroutines
 
 // shallowSlices: render slices of object pointers as a count (set by checks that visit the elements themselves)
 var shallowSlices = false
 
 func zeroArgMethods(t reflect.Type) []int {
-	if idx, ok := methodCache[t]; ok {
-		return idx
+	methodCacheMu.RLock()
+	idx0, ok0 := methodCache[t]
+	methodCacheMu.RUnlock()
+	if ok0 {
+		return idx0
 	}
+	methodCacheMu.Lock()
+	defer methodCacheMu.Unlock()
 	var idx []int
 	for i := 0; i < t.NumMethod(); i++ {
 		m := t.Method(i)
@@ -191,4 +198,83 @@ func shallowDigest(v reflect.Value) string {
 		}
 	}
 	return sb.String()
+}
+
+// deepSnap renders the complete private state of a value (unexported fields included) to a fixed depth:
+// used to detect read-only accessors that write to the object they are called on.
+func deepSnap(v reflect.Value, depth int, seen map[uintptr]bool) string {
+	if !v.IsValid() {
+		return "<invalid>"
+	}
+	switch v.Kind() {
+	case reflect.Ptr:
+		if v.IsNil() {
+			return "nil"
+		}
+		p := v.Pointer()
+		if depth <= 0 || seen[p] {
+			return fmt.Sprintf("ptr@%x", p)
+		}
+		seen[p] = true
+		return fmt.Sprintf("&@%x{%s}", p, deepSnap(v.Elem(), depth-1, seen))
+	case reflect.Interface:
+		if v.IsNil() {
+			return "nil"
+		}
+		return deepSnap(v.Elem(), depth, seen)
+	case reflect.Struct:
+		var sb strings.Builder
+		t := v.Type()
+		for i := 0; i < v.NumField(); i++ {
+			sb.WriteString(t.Field(i).Name + ":" + deepSnap(v.Field(i), depth, seen) + ";")
+		}
+		return sb.String()
+	case reflect.Slice:
+		if v.IsNil() {
+			return "nil"
+		}
+		var sb strings.Builder
+		fmt.Fprintf(&sb, "[%d@%x:", v.Len(), v.Pointer())
+		for i := 0; i < v.Len() && i < 64; i++ {
+			sb.WriteString(deepSnap(v.Index(i), depth-1, seen) + ",")
+		}
+		return sb.String() + "]"
+	case reflect.Array:
+		var sb strings.Builder
+		for i := 0; i < v.Len(); i++ {
+			sb.WriteString(deepSnap(v.Index(i), depth-1, seen) + ",")
+		}
+		return "[" + sb.String() + "]"
+	case reflect.Map:
+		if v.IsNil() {
+			return "nil"
+		}
+		var parts []string
+		it := v.MapRange()
+		for it.Next() {
+			parts = append(parts, deepSnap(it.Key(), 0, seen)+"="+deepSnap(it.Value(), depth-1, seen))
+		}
+		sort.Strings(parts)
+		return fmt.Sprintf("map@%x{%s}", v.Pointer(), strings.Join(parts, ","))
+	case reflect.String:
+		return strconvQuote(v.String())
+	case reflect.Bool:
+		return fmt.Sprint(v.Bool())
+	case reflect.Int, reflect.Int8, reflect.Int16, reflect.Int32, reflect.Int64:
+		return fmt.Sprint(v.Int())
+	case reflect.Uint, reflect.Uint8, reflect.Uint16, reflect.Uint32, reflect.Uint64, reflect.Uintptr:
+		return fmt.Sprint(v.Uint())
+	case reflect.Float32, reflect.Float64:
+		return fmt.Sprintf("%.9f", v.Float())
+	case reflect.Func, reflect.Chan, reflect.UnsafePointer:
+		return fmt.Sprintf("%s@%x", v.Kind(), v.Pointer())
+	}
+	return v.Kind().String()
+}
+
+func strconvQuote(s string) string {
+	if len(s) > 64 {
+		return fmt.Sprintf("%q…%d", s[:64], len(s))
+	}
+	return fmt.Sprintf("%q", s)
 }
